@@ -970,6 +970,12 @@ class Em:
                 if ty in ("isize", "i64"):
                     return b, f"({tl} - {tr})", ty
                 return b, self.pbind(b, f"TF.PolyStd.usub? {paren(tl)} {paren(tr)}"), ty
+            if op == ">>" and ty in ("usize", "u64", "u32"):
+                # a shift amount of the full width or more is a debug-build panic (and masked in release): `none`
+                w = 32 if ty == "u32" else 64
+                return b, self.pbind(b, f"TF.PolyStd.ushr? {w} {paren(tl)} {paren(tr)}"), ty
+            if op == "&" and ty in ("usize", "u64", "u32"):
+                return b, f"({tl} &&& {tr})", ty
             raise Unsupported(f"integer operator {op}")
         if op in ("==", "!="):
             if tyl == "bool" and tyr == "bool":
@@ -1304,6 +1310,9 @@ class Em:
                 return b + b2, f"(Nat.min ({t} + {o}) 18446744073709551615)", ty
             if name == "next_power_of_two" and not args and ty in ("usize", "u64"):
                 return b, f"(TF.PolyStd.nextPowerOfTwo {paren(t)})", ty
+            if name == "checked_ilog2" and not args and ty in ("usize", "u64", "u32"):
+                # `None` exactly for 0, else the position of the highest set bit
+                return b, f"(if {paren(t)} == 0 then none else some (Nat.log2 {paren(t)}))", ("opt", "u32")
             raise Unsupported(f"method {name} on an integer")
         if tt == "poly":
             vals = [(t, ty)]
@@ -1350,6 +1359,9 @@ class Em:
 
     def seq(self, stmts, i, tail, env, k):
         if i == len(stmts):
+            if tail is not None and tail[0] == "ifx" and tail[3] is None:
+                # `if c { .. }` in tail position has type `()`: it is a statement
+                return self.seq(stmts + [("if", tail[1], tail[2], None)], i, None, env, k)
             if tail is not None and tail[0] == "ifx" and self.tail_if_needs_cps(tail):
                 return self.tail_if(tail, env, k)
             if tail is not None and tail[0] == "macro" and tail[1] == "panic":
@@ -1681,12 +1693,14 @@ class Em:
             _, lo, hi, incl = it
             if lo is None or hi is None:
                 raise Unsupported("open range in a for loop")
-            b1, tl, lty = self.ex(lo, env, "usize")
             b2, th, hty = self.ex(hi, env, "usize")
-            self.unify(self.unify(lty, hty, "range"), "usize", "range")
+            # the bounds decide the element type; unsigned machine integers only (all are `Nat` in the model)
+            rty = hty if hty in ("u32", "u64") else "usize"
+            b1, tl, lty = self.ex(lo, env, rty)
+            self.unify(self.unify(lty, hty, "range"), rty, "range")
             b = b1 + b2
             lst = f"(List.range' {paren(tl)} ({th} + 1 - {tl}))" if incl else f"(List.range' {paren(tl)} ({th} - {tl}))"
-            ety = "usize"
+            ety = rty
         else:
             b, lst, lty = self.ex(it, env)
             if not (isinstance(lty, tuple) and lty[0] == "list"):
@@ -1935,6 +1949,7 @@ POLY_FUNCTIONS = [
     S("naive_multiply", "naive_multiply", **THREE),
     S("mul", "mul", r"impl<FF, FF2> Mul<Polynomial<'_, FF2>> for Polynomial<'_, FF>", **THREE),
     S("slow_square", "slow_square"),
+    S("pow", "pow"),
     # ---- evaluation, truncation, division (C09 / C17)
     S("evaluate", "evaluate", tparams=[FF, ("Ind", "ι", "ops", {}), ("Eval", "ε", "ops", {"zero": "zeroE"})],
       mixed=[("mul", "Eval", "Ind", "Eval", "mulX"), ("add", "Eval", "FF", "Eval", "addC")]),
@@ -1964,7 +1979,7 @@ POLY_FUNCTIONS = [
 ]
 
 # functions of polynomial.rs that are deliberately attempted and expected to be REFUSED (recorded under `outside_subset`)
-POLY_OUTSIDE = ["pow", "fast_pow", "xgcd", "batch_multiply", "par_batch_multiply", "fast_reduce", "formal_power_series_inverse_minimal",
+POLY_OUTSIDE = ["fast_pow", "xgcd", "batch_multiply", "par_batch_multiply", "fast_reduce", "formal_power_series_inverse_minimal",
                 "formal_power_series_inverse_newton", "structured_multiple_of_degree", "reduce_by_structured_modulus",
                 "shift_factor_ntt_with_tail_length", "reduce_by_ntt_friendly_modulus", "fast_coset_evaluate", "are_colinear",
                 "lagrange_interpolate", "naive_zerofier", "clean_divide"]
